@@ -304,6 +304,8 @@ def run(ctx):
     check_bounds(ctx, db)
     check_siblings(ctx, db)
     check_dimensions(ctx, db)
+    from . import C02   # the OASIS PATH extension scheme written for a simple path announces exactly the extensions that follow
+    C02.check_path_extensions(ctx, db)
 
 
 MANIFEST = dict(
